@@ -46,7 +46,9 @@ def verify(src, name):
                          cwd=wt, env=env, timeout=3000)
         summary = [l for l in out_t.splitlines() if " passed" in l or " failed" in l][-1:]
         failed = sorted(l.split()[1] for l in out_t.splitlines() if l.startswith("FAILED"))
-        ok_tests = bool(summary) and "392 passed" in summary[0] and "5 failed" in summary[0]
+        # baseline of the current /repo HEAD: 392 pinned tests + test_random_sparse_scalings[shape6...],
+        # which fix e0e4c59 (D31) made pass; the 4 remaining failures are environment incompatibilities
+        ok_tests = bool(summary) and "393 passed" in summary[0] and "4 failed" in summary[0]
         print(f"[{name}] demo clean rc={rc_clean} patched rc={rc_pat} tests: {summary}")
         ok = rc_clean == 0 and rc_pat != 0 and ok_tests
         if not ok:
